@@ -49,6 +49,7 @@ type Reader struct {
 	NoClose     bool
 
 	Failures  int // one-shot errors reported so far
+	shot      bool
 	pos       int
 	zeros     int
 	failed    bool
@@ -76,9 +77,9 @@ func (r *Reader) Read(p []byte) (int, error) {
 		return 0, nil
 	}
 	r.zeros = 0
-	if r.FailAt >= 0 && r.pos >= r.FailAt {
+	if r.failArmed() && r.pos >= r.FailAt {
 		if r.OneShot {
-			r.FailAt = -1
+			r.shot = true
 			r.Failures++
 			return 0, r.failErr()
 		}
@@ -86,7 +87,7 @@ func (r *Reader) Read(p []byte) (int, error) {
 		return 0, r.failErr()
 	}
 	rem := len(r.Data) - r.pos
-	if r.FailAt >= 0 && r.FailAt-r.pos < rem {
+	if r.failArmed() && r.FailAt-r.pos < rem {
 		rem = r.FailAt - r.pos
 	}
 	if rem == 0 && r.pos >= len(r.Data) {
@@ -108,21 +109,24 @@ func (r *Reader) Read(p []byte) (int, error) {
 	}
 	copy(p, r.Data[r.pos:r.pos+n])
 	r.pos += n
-	if r.ErrWithData && r.FailAt >= 0 && r.pos >= r.FailAt {
+	if r.ErrWithData && r.failArmed() && r.pos >= r.FailAt {
 		if r.OneShot {
-			r.FailAt = -1
+			r.shot = true
 			r.Failures++
 			return n, r.failErr()
 		}
 		r.failed = true
 		return n, r.failErr()
 	}
-	if r.pos >= len(r.Data) && r.EOFWithData && (r.FailAt < 0 || r.FailAt > len(r.Data)) {
+	if r.pos >= len(r.Data) && r.EOFWithData && (!r.failArmed() || r.FailAt > len(r.Data)) {
 		r.done = true
 		return n, io.EOF
 	}
 	return n, nil
 }
+
+// failArmed: a failure is configured and (for a one-shot failure) has not been reported yet.
+func (r *Reader) failArmed() bool { return r.FailAt >= 0 && !r.shot }
 
 func (r *Reader) failErr() error {
 	if r.FailErr != nil {
